@@ -215,12 +215,16 @@ def run_rust_check(pid, tier, replay, start, level, plan, timeout=None):
     worst = 0
     parts = []
     crashed = []
+    violation_printed = False
     for idx, (variant, binname, extra) in enumerate(plan):
         part_out = os.path.join(TARGET, "parts", f"{pid}-{idx}-{variant}-{binname}.json")
         if os.path.exists(part_out):
             os.remove(part_out)
         code, _ = run_bin(variant, binname, tier, extra, part_out=part_out, replay=replay, timeout=timeout, tolerate_crash=not replay)
         worst = max(worst, code)
+        if code == 1:
+            # (an explorer that reports a hang prints its VIOLATION line and leaves without a result file)
+            violation_printed = True
         if replay:
             return code
         if not os.path.exists(part_out):
@@ -229,7 +233,7 @@ def run_rust_check(pid, tier, replay, start, level, plan, timeout=None):
             crashed.append(f"{binname} ({variant})")
             continue
         parts.append((f"{binname}:{variant}" + (":" + " ".join(extra) if extra else ""), json.load(open(part_out))))
-    violation_seen = any(doc.get("violations", 0) > 0 for _, doc in parts)
+    violation_seen = violation_printed or any(doc.get("violations", 0) > 0 for _, doc in parts)
     if crashed and not violation_seen:
         machinery(f"{', '.join(crashed)} wrote no result file")
     if parts:
